@@ -82,6 +82,7 @@ type Bed struct {
 	OnPlayHook         func(ctx *gortsplib.ServerHandlerOnPlayCtx)
 	OnRecordHook       func(ctx *gortsplib.ServerHandlerOnRecordCtx)
 	OnDescribeHook     func(ctx *gortsplib.ServerHandlerOnDescribeCtx)
+	OnPauseHook        func() *base.Response // non-nil result: the answer to the PAUSE request
 	OnWriteErrorHook   func(ctx *gortsplib.ServerHandlerOnStreamWriteErrorCtx)
 }
 
@@ -221,6 +222,14 @@ func (m mRecord) OnRecord(ctx *gortsplib.ServerHandlerOnRecordCtx) (*base.Respon
 type mPause struct{ *core }
 
 func (m mPause) OnPause(_ *gortsplib.ServerHandlerOnPauseCtx) (*base.Response, error) {
+	m.b.mu.Lock()
+	h := m.b.OnPauseHook
+	m.b.mu.Unlock()
+	if h != nil {
+		if r := h(); r != nil {
+			return r, nil // the application refuses the PAUSE (no error: the connection is kept)
+		}
+	}
 	return &base.Response{StatusCode: base.StatusOK}, nil
 }
 
